@@ -63,7 +63,8 @@ impl Context {
         let mut abs_index = self.total_len();
         for scope in self.symbols.iter().rev() {
             abs_index -= scope.len();
-            if let Some(index) = scope.iter().position(|n| n == name) {
+            // last one wins: a name can be declared more than once in the same scope
+            if let Some(index) = scope.iter().rposition(|n| n == name) {
                 return Some(Symbol {
                     index: (abs_index + index).try_into().unwrap(),
                     scope: self.scope,
